@@ -165,6 +165,106 @@ theorem step_kinds {w w' : World Rat} (h : w.step = some w') :
     · exact Or.inl h1
     · exact Or.inr (Or.inl h1)
 
+/-- **C01, second clause**: the clock of a simulation moves only when its current time step is drained - no
+activity is running and nothing is pending for the old time (all work scheduled for `t` ran before the clock passed `t`) -/
+theorem clock_moves_only_when_drained {w w' : World Rat} (h : w.step = some w') (hs : w'.saved = w.saved)
+    (ht : w'.time ≠ w.time) : w.ctl = [] ∧ w.pending = [] ∧ ∃ b, w.queue = (w'.time, b) :: w'.queue := by
+  unfold step at h
+  split at h
+  · rename_i hc
+    unfold kernelStep at h
+    have hret : ∀ {w w' : World Rat}, w.nestedReturn = some w' → w'.saved ≠ w.saved := by
+      intro w w' h
+      unfold nestedReturn at h
+      split at h
+      · cases h
+      · rename_i sv rest hsv
+        have : w'.saved = rest := by
+          simp only at h
+          split at h <;> (cases h; simp)
+        rw [this, hsv]
+        intro hh
+        have := congrArg List.length hh
+        simp at this
+    split at h
+    · exact absurd hs (hret h)
+    · split at h
+      · rename_i act rest hp
+        exfalso
+        apply ht
+        simp only at h
+        split at h
+        all_goals
+          split at h
+          · simp only [Option.some.injEq] at h
+            subst h
+            have := congrArg KV.time (kv_activate { w with pending := rest, turn := w.turn + 1 } act.target act.signal)
+            exact this
+          · simp only [Option.some.injEq] at h
+            subst h; rfl
+      · rename_i hp
+        split at h
+        · rename_i t bucket q hq
+          cases h
+          exact ⟨hc, hp, bucket, hq⟩
+        · exact absurd hs (hret h)
+  · cases h
+    exfalso
+    rcases microStep_kstep w with h1 | h1
+    · exact ht (by have := h1.time; simpa [kv] using this)
+    · obtain ⟨sv, hsv, _, _⟩ := h1.saved
+      simp only [kv] at hsv
+      rw [hsv] at hs
+      have := congrArg List.length hs
+      simp at this
+
+/-- **C15: `run()` returns exactly at quiescence or when a failure escaped**: the machine stops iff no activity is
+running, no nested simulation is open and either an exception escaped the loop or neither the current time step
+nor the wait queue holds anything -/
+theorem step_none_iff (w : World Rat) :
+    w.step = none ↔ w.ctl = [] ∧ w.saved = [] ∧ (w.crashed.isSome = true ∨ (w.pending = [] ∧ w.queue = [])) := by
+  have hret : ∀ (w : World Rat), w.nestedReturn = none ↔ w.saved = [] := by
+    intro w
+    unfold nestedReturn
+    split
+    · rename_i h; simp [h]
+    · rename_i sv rest h
+      simp only [h]
+      constructor
+      · intro hh; split at hh <;> cases hh
+      · intro hh; cases hh
+  unfold step
+  split
+  · rename_i hc
+    unfold kernelStep
+    split
+    · rename_i hcr
+      rw [hret]
+      simp [hc, hcr]
+    · rename_i hcr
+      split
+      · rename_i act rest hp
+        simp only [hc, hp, hcr]
+        constructor
+        · intro hh
+          exfalso
+          split at hh <;> (split at hh <;> cases hh)
+        · rintro ⟨_, _, h1 | ⟨h1, _⟩⟩
+          · exact absurd h1 (by simp at hcr; simp [hcr])
+          · cases h1
+      · rename_i hp
+        split
+        · rename_i t b q hq
+          simp [hc, hp, hq, hcr]
+        · rename_i hq
+          rw [hret]
+          simp [hc, hp, hq, hcr]
+  · rename_i hc
+    constructor
+    · intro hh; cases hh
+    · rintro ⟨h1, _⟩
+      exact absurd h1 (by intro hh; exact hc hh)
+
 /-- **the invariant is kept by every step** -/
 theorem step_ok {w w' : World Rat} (ok : KOk w.kv) (h : w.step = some w') : KOk w'.kv := by
   rcases step_kinds h with h1 | h1 | h1 | h1
